@@ -70,6 +70,9 @@ func addUniques(r *Rng, kids []any) {
 // a list or leaf-list node without entries is not part of a valid tree (C19 generates valid trees only)
 var noEmptyMulti bool
 
+// ... but lists and leaf-lists without entries all the same (stream yenc: they are encoded as empty arrays)
+var emptyMultiOnly bool
+
 // genData: a data tree for the children `kids` of an existing parent
 func genDataKids(r *Rng, kids []any, pInclude int) []any {
 	var out []any
@@ -109,7 +112,7 @@ func genDataKids(r *Rng, kids []any, pInclude int) []any {
 					ek = append(ek, genDataKids(r, carr(n, "kids")[1:], pInclude)...)
 					entries = append(entries, map[string]any{"n": v, "kids": ek})
 				}
-				if len(entries) > 0 || (!noEmptyMulti && r.Chance(20)) {
+				if len(entries) > 0 || ((!noEmptyMulti || emptyMultiOnly) && r.Chance(20)) {
 					out = append(out, map[string]any{"n": cstr(n, "n"), "kids": entries})
 				}
 			}
@@ -135,7 +138,7 @@ func genDataKids(r *Rng, kids []any, pInclude int) []any {
 						vs = append(vs, v)
 					}
 				}
-				if len(vs) > 0 || (!noEmptyMulti && r.Chance(20)) {
+				if len(vs) > 0 || ((!noEmptyMulti || emptyMultiOnly) && r.Chance(20)) {
 					out = append(out, map[string]any{"n": cstr(n, "n"), "vals": vs})
 				}
 			}
